@@ -12,7 +12,7 @@ namespace Drv.Registry
 open S2S.Registry
 
 structure DSt where
-  cfg    : Cfg := {}
+  cfg    : Cfg := {}                -- engine `registry`: the current tree; `registry-asis`: `Cfg.asIs` (before the two fixes)
   σ      : State := {}
   paused : List (String × Tok) := []
   fails  : List Tok := []          -- incarnations whose client stream cannot be opened
